@@ -1,4 +1,6 @@
 import PmtilesModel.Proofs.Convert
+import PmtilesModel.Proofs.Clustered
+import PmtilesModel.Proofs.WriterVerifies
 import PmtilesModel.Model.Finalize
 /-!
 # C06 — Convert preserves the MBTiles tile map (XYZ-flipped), metadata and statistics
@@ -69,5 +71,20 @@ theorem convert_header (h : Header.Header) (compress : Bool) (r : Res) (a b c : 
     out.rootOffset = 127 ∧ out.tileDataLength = r.data.length := by
   simp only [Finalize.finalizeHeader, Finalize.setZoomCenterDefaults]
   split <;> simp
+
+/-- **convert's output is clustered** and references exactly the tile data written (see
+    `C13.cluster_output_clustered`) -/
+theorem convert_output_clustered (dedup : Bool) (rows : List Row) (henc : ∀ b, b ≠ [] → 1 ≤ (enc b).length) :
+    Pm.Sync.ClusteredFrom 0 (run enc (init dedup) (convertAdds rows)).rev.reverse ∧
+    Pm.Sync.extent 0 (run enc (init dedup) (convertAdds rows)).rev.reverse =
+      (run enc (init dedup) (convertAdds rows)).data.length :=
+  run_clustered enc dedup (convertAdds rows) (fun a ha => henc a.2.1 (convertAdds_nonempty rows a ha))
+
+
+/-- **verify's per-entry checks accept convert's output** -/
+theorem convert_output_verifies (dedup : Bool) (rows : List Row) (henc : ∀ b, b ≠ [] → 1 ≤ (enc b).length) :
+    Pm.Verify.entryLoop (run enc (init dedup) (convertAdds rows)).data.length true [] 0
+      (run enc (init dedup) (convertAdds rows)).rev.reverse = false :=
+  run_verifies enc dedup (convertAdds rows) (fun a ha => henc a.2.1 (convertAdds_nonempty rows a ha))
 
 end Pm.C06
